@@ -24,7 +24,8 @@ import (
 //	bitv                             : bit vector, V = the bits as 0/1 text
 //	octs                             : octets vector, V = the ASCII text whose bytes it holds
 //	char str sym key                 : V = the character, text, name
-//	nil t                            : the two constants
+//	nil t                            : the two constants; a nil with a V is the empty list reached by evaluating V
+//	                                   (slip has two representations of it: no object at all and a list of length 0)
 //	list                             : proper list of C (non-empty)
 //	dot                              : dotted list, last element of C is the tail
 //	vec                              : simple vector of C
@@ -38,17 +39,17 @@ type Obj struct {
 	C []Obj  `json:"c,omitempty"`
 }
 
-func num(k, v string) Obj      { return Obj{K: k, V: v} }
-func fix(v int) Obj            { return Obj{K: "fix", V: strconv.Itoa(v)} }
-func str(v string) Obj         { return Obj{K: "str", V: v} }
-func chr(v string) Obj         { return Obj{K: "char", V: v} }
-func sym(v string) Obj         { return Obj{K: "sym", V: v} }
-func key(v string) Obj         { return Obj{K: "key", V: v} }
-func list(c ...Obj) Obj        { return Obj{K: "list", C: c} }
-func dot(c ...Obj) Obj         { return Obj{K: "dot", C: c} }
-func vec(c ...Obj) Obj         { return Obj{K: "vec", C: c} }
-func opq(v string) Obj         { return Obj{K: "opq", V: v} }
-func tab(c ...Obj) Obj         { return Obj{K: "tab", C: c} }
+func num(k, v string) Obj           { return Obj{K: k, V: v} }
+func fix(v int) Obj                 { return Obj{K: "fix", V: strconv.Itoa(v)} }
+func str(v string) Obj              { return Obj{K: "str", V: v} }
+func chr(v string) Obj              { return Obj{K: "char", V: v} }
+func sym(v string) Obj              { return Obj{K: "sym", V: v} }
+func key(v string) Obj              { return Obj{K: "key", V: v} }
+func list(c ...Obj) Obj             { return Obj{K: "list", C: c} }
+func dot(c ...Obj) Obj              { return Obj{K: "dot", C: c} }
+func vec(c ...Obj) Obj              { return Obj{K: "vec", C: c} }
+func opq(v string) Obj              { return Obj{K: "opq", V: v} }
+func tab(c ...Obj) Obj              { return Obj{K: "tab", C: c} }
 func arr(dims string, c ...Obj) Obj { return Obj{K: "arr", V: dims, C: c} }
 func inst(class string, v Obj) Obj  { return Obj{K: "inst", V: class, C: []Obj{v}} }
 
@@ -57,7 +58,7 @@ func (o Obj) dims() (int, int) {
 	fmt.Sscanf(o.V, "%dx%d", &r, &c)
 	return r, c
 }
-func (o Obj) isNum() bool      { return group(o.K) == "num" }
+func (o Obj) isNum() bool       { return group(o.K) == "num" }
 func (o Obj) withC(c []Obj) Obj { return Obj{K: o.K, V: o.V, C: c} }
 
 var objNil = Obj{K: "nil"}
@@ -115,6 +116,9 @@ func (o Obj) Src() string {
 	case "key":
 		return ":" + o.V
 	case "nil":
+		if o.V != "" {
+			return o.V
+		}
 		return "nil"
 	case "t":
 		return "t"
@@ -576,7 +580,7 @@ func wantEql(a, b *hv) tv {
 	return fF
 }
 
-func wantEqual(a, b *hv) tv { return wantStruct(a, b, false) }
+func wantEqual(a, b *hv) tv  { return wantStruct(a, b, false) }
 func wantEqualp(a, b *hv) tv { return wantStruct(a, b, true) }
 
 func wantStruct(a, b *hv, p bool) tv {
@@ -678,6 +682,51 @@ func wantStruct(a, b *hv, p bool) tv {
 		return r
 	}
 	return fF
+}
+
+// whyNot names, coarsely, why two containers of one kind are not
+// equal/equalp by the definition: size, keys (tables), elem (a pair of
+// corresponding parts is not), kind (instances of different classes). It is
+// part of the signature of a wrong t, so that a second way of wrongly
+// answering t for the same kind of container is a different signature.
+func whyNot(a, b *hv, p bool) string {
+	if a.o.K != b.o.K || len(a.kids) == 0 && len(b.kids) == 0 {
+		return ""
+	}
+	switch a.o.K {
+	case "list", "dot", "vec":
+		if len(a.kids) != len(b.kids) {
+			return "size"
+		}
+		return "elem"
+	case "arr":
+		if a.o.V != b.o.V {
+			return "size"
+		}
+		return "elem"
+	case "inst":
+		if a.o.V != b.o.V {
+			return "kind"
+		}
+		return "elem"
+	case "tab":
+		if len(a.kids) != len(b.kids) {
+			return "size"
+		}
+		for i := 0; i+1 < len(a.kids); i += 2 {
+			found := false
+			for j := 0; j+1 < len(b.kids); j += 2 {
+				if wantEql(a.kids[i], b.kids[j]) == fT {
+					found = true
+				}
+			}
+			if !found {
+				return "keys"
+			}
+		}
+		return "elem"
+	}
+	return ""
 }
 
 var wantFns = map[string]func(a, b *hv) tv{"eq": wantEq, "eql": wantEql, "equal": wantEqual, "equalp": wantEqualp}
